@@ -41,6 +41,20 @@ fn main() {
     let code = match args.get(1).map(|s| s.as_str()) {
         Some("explore") => plan::cmd_explore(&opt),
         Some("replay") => plan::cmd_replay(&opt),
+        Some("decode-marker") => {
+            let nkeys: u16 = opt.get("nkeys").and_then(|s| s.parse().ok()).unwrap_or(3);
+            let u = Universe::new(nkeys, false);
+            match opt.get("file").and_then(|f| harness::contain::decode(f, &u)) {
+                Some(j) => {
+                    println!("{}", serde_json::to_string_pretty(&j).unwrap());
+                    0
+                }
+                None => {
+                    eprintln!("no crashing worker recorded in the marker file");
+                    2
+                }
+            }
+        }
         _ => {
             eprintln!("usage: lrumc explore|replay ...");
             2
